@@ -72,6 +72,30 @@ func init() {
 		} else {
 			obs["printed"] = Bytes(out)
 		}
+		// the value used as a number by a template: in arithmetic and in ordering comparisons against 1.25, given as a number
+		// and as the string "1.25" - the operand is the coerced number whichever value carries it
+		var used []stick.Value
+		if p := guard(func() {
+			env := stick.New(nil)
+			env.Functions["rec"] = func(ctx stick.Context, a ...stick.Value) stick.Value {
+				used = append([]stick.Value(nil), a...)
+				return nil
+			}
+			rec := &recorder{failedAt: -1}
+			if err := env.Execute("{% do rec(v + 0, v < p, v > p, v < ps, v > ps, ps >= v, ps <= v) %}", rec,
+				map[string]stick.Value{"v": v, "p": 1.25, "ps": "1.25"}); err != nil {
+				used = nil
+			}
+		}); p != "" {
+			obs["use_panic"] = p
+		} else if len(used) == 7 {
+			obs["plus0"] = fromGo(used[0])
+			cmp := make([]bool, 6)
+			for i := range cmp {
+				cmp[i], _ = used[i+1].(bool)
+			}
+			obs["cmp"] = cmp
+		}
 		return obs, nil
 	}
 
